@@ -61,7 +61,83 @@ def branches(tree):
     return res
 
 
+# ---------------------------------------------------------------- the two language back ends (Gen/UmlCsSrc.v)
+
+LANGS = [("cpp", "kojen/LanguageCPP.py", "LanguageCPP"), ("cs", "kojen/LanguageCsharp.py", "LanguageCsharp")]
+OPS_TAGS = ["<<<PUBLIC_OPERATIONS_DECLARE>>>", "<<<PROTECTED_OPERATIONS_DECLARE>>>", "<<<PRIVATE_OPERATIONS_DECLARE>>>", "<<<OPERATIONS_IMPLEMENTATION>>>"]
+
+
+def no_doc(fn):
+    body = fn.body[1:] if (fn.body and isinstance(fn.body[0], ast.Expr) and isinstance(fn.body[0].value, ast.Constant)
+                           and isinstance(fn.body[0].value.value, str)) else fn.body
+    return "\n".join(ast.unparse(st) for st in body)
+
+
+def tests_of(fn):
+    """the conditions of every if / elif / conditional expression / loop of a function, in source order"""
+    nodes = [n for n in ast.walk(fn) if isinstance(n, (ast.If, ast.IfExp, ast.For, ast.While))]
+    nodes.sort(key=lambda n: (n.lineno, n.col_offset))
+    return [("for " + ast.unparse(n.target) + " in " + ast.unparse(n.iter)) if isinstance(n, ast.For) else ast.unparse(n.test) for n in nodes]
+
+
+def calls_of(fn, name):
+    """source text of the calls self.<name>(...) inside fn, in source order"""
+    cs = [n for n in ast.walk(fn) if isinstance(n, ast.Call) and ast.unparse(n.func) == "self." + name]
+    cs.sort(key=lambda n: (n.lineno, n.col_offset))
+    return [ast.unparse(c) for c in cs]
+
+
+def language_facts():
+    out, srcs = [], []
+    for tag, rel, cls in LANGS:
+        tree = parse(rel)
+        srcs.append(rel)
+        ops = find_def(tree, "GetOperationPerVisibility", cls)
+        out.append("Definition ops_tests_%s : list string := %s." % (tag, coq_str_list(tests_of(ops))))
+        out.append("Definition ops_first_statement_%s : string := %s." % (tag, coq_bs(ast.unparse(
+            ops.body[1] if isinstance(ops.body[0], ast.Expr) and isinstance(ops.body[0].value, ast.Constant) else ops.body[0]))))
+        out.append("Definition ops_declare_calls_%s : list string := %s." % (tag, coq_str_list(calls_of(ops, "DeclareFunction"))))
+        out.append("Definition ops_recursive_calls_%s : list string := %s." % (tag, coq_str_list(calls_of(ops, "GetOperationPerVisibility"))))
+        sig = find_def(tree, "GetOperationSignature", cls)
+        rets = [ast.unparse(n.value) for n in ast.walk(sig) if isinstance(n, ast.Return)]
+        if len(rets) != 1:
+            raise Refuse("GetOperationSignature of %s: not exactly one return" % cls)
+        out.append("Definition sig_return_%s : string := %s." % (tag, coq_bs(rets[0])))
+        out.append("Definition declare_function_%s : string := %s." % (tag, coq_bs(no_doc(find_def(tree, "DeclareFunction", cls)))))
+        out.append("Definition parameter_string_%s : string := %s." % (tag, coq_bs(no_doc(find_def(tree, "ParameterString", cls)))))
+        out.append("Definition ns_functions_%s : list string := %s." % (tag, coq_str_list(
+            [no_doc(find_def(tree, "GetFormatNestedNamespaceBegin", cls)), no_doc(find_def(tree, "GetFormatNestedNamespaceEnd", cls))])))
+    # the templates: where the namespace wrap and the operation sections sit
+    for name, rel in TDIRS:
+        rows = []
+        for f in sorted(os.listdir(os.path.join(REPO, rel))):
+            text = open(os.path.join(REPO, rel, f), encoding="utf-8", errors="replace").read()
+            b, e = text.count("<<<NESTED_NAMESPACE_BEGIN>>>"), text.count("<<<NESTED_NAMESPACE_END>>>")
+            wrapped = b == 1 and e == 1 and text.index("<<<NESTED_NAMESPACE_BEGIN>>>") < text.index("<<<NESTED_NAMESPACE_END>>>")
+            if (b or e) and not wrapped:
+                raise Refuse("template %s: namespace tags not exactly once, in order" % f)
+            inner = text[text.index("<<<NESTED_NAMESPACE_BEGIN>>>"):text.index("<<<NESTED_NAMESPACE_END>>>")] if wrapped else ""
+            tags = [t for t in OPS_TAGS if t in text]
+            if any(t not in inner for t in tags):
+                raise Refuse("template %s: an operation section lies outside the namespace wrap" % f)
+            if any(text.count(t) != 1 for t in tags):
+                raise Refuse("template %s: an operation section occurs twice" % f)
+            tags.sort(key=text.index)
+            kw = [k for k in ("public class", "public interface", "public enum", "public struct") if k in inner]
+            rows.append("(%s, (%s, (%s, %s)))" % (coq_bs(f), "true" if wrapped else "false", coq_str_list(tags).replace("\n", " "), coq_str_list(kw).replace("\n", " ")))
+        out.append("Definition %s_layout : list (string * (bool * (list string * list string))) := [\n    %s\n  ]." % (name, ";\n    ".join(rows)))
+    # the project-file block of umlgen
+    gen = find_def(parse(SRC), "loadtemplates_firstfiltering", "CUMLGenerator")
+    proj = [ast.unparse(n) for n in ast.walk(gen) if isinstance(n, ast.Assign) and ast.unparse(n.targets[0]).startswith("dict_to_replace_filenames['Project']")]
+    projcall = [ast.unparse(n) for n in ast.walk(gen) if isinstance(n, ast.Call) and ast.unparse(n.func) == "CGenerator.loadtemplates_firstfiltering"
+                and isinstance(n.args[-1], ast.Constant) and n.args[-1].value == "Project"]
+    names = [ast.unparse(n) for n in ast.walk(gen) if isinstance(n, ast.Assign) and ast.unparse(n.targets[0]).startswith("namespaces_in_project")]
+    out.append("Definition project_block : list string := %s." % coq_str_list(proj + projcall + names))
+    return write_gen("UmlCsSrc.v", "\n".join(out) + "\n", srcs + [SRC])
+
+
 def run():
+    language_facts()
     tree = parse(SRC)
     br = branches(tree)
     out = []
